@@ -27,7 +27,9 @@ Definition h2_read_header (b : bytes) : fhdr :=
      fh_sid := mask31 (be_dec (firstn 4 (skipn 5 b))) |}.
 
 (* ---------- frames and errors ---------- *)
+Definition mkh (l t f s : N) : fhdr := {| fh_len := l; fh_type := t; fh_flags := f; fh_sid := s |}.
 Record prio := { p_dep : N; p_excl : bool; p_weight : N }.
+Definition mkprio (d : N) (e : bool) (w : N) : prio := {| p_dep := d; p_excl := e; p_weight := w |}.
 Definition prio_zero : prio := {| p_dep := 0; p_excl := false; p_weight := 0 |}.
 Definition prio_is_zero (p : prio) : bool := (p_dep p =? 0) && negb (p_excl p) && (p_weight p =? 0).
 
@@ -335,3 +337,69 @@ Definition write_push_promise (aiw : bool) (sid promise : N) (frag : bytes) (end
       ((if padlen =? 0 then [] else [u8 padlen]) ++ be_enc 4 promise ++ frag ++ repeat x00 (N.to_nat padlen)).
 
 Definition write_raw (ty flags sid : N) (payload : bytes) : wres := end_write ty flags sid payload.
+
+(* ---------- one Write* call with its Go arguments (used by the harness cases and the theorems) ---------- *)
+Inductive wcall :=
+| WData (aiw : bool) (sid : N) (es : bool) (data : bytes) (pad : option bytes)
+| WHeaders (aiw : bool) (sid : N) (frag : bytes) (es eh : bool) (padlen : N) (pr : prio)
+| WPriority (aiw : bool) (sid : N) (pr : prio)
+| WRst (aiw : bool) (sid code : N)
+| WSettings (l : list (N * N))
+| WSettingsAck
+| WPing (ack : bool) (data : bytes)
+| WGoAway (last code : N) (debug : bytes)
+| WWindowUpdate (aiw : bool) (sid incr : N)
+| WContinuation (aiw : bool) (sid : N) (eh : bool) (frag : bytes)
+| WPushPromise (aiw : bool) (sid promise : N) (frag : bytes) (eh : bool) (padlen : N)
+| WRaw (ty flags sid : N) (payload : bytes).
+
+Definition run_wcall (c : wcall) : wres :=
+  match c with
+  | WData a s es d p => write_data a s es d p
+  | WHeaders a s f es eh pl pr => write_headers a s f es eh pl pr
+  | WPriority a s pr => write_priority a s pr
+  | WRst a s c => write_rst a s c
+  | WSettings l => write_settings l
+  | WSettingsAck => write_settings_ack
+  | WPing a d => write_ping a d
+  | WGoAway l c d => write_goaway l c d
+  | WWindowUpdate a s i => write_window_update a s i
+  | WContinuation a s eh f => write_continuation a s eh f
+  | WPushPromise a s p f eh pl => write_push_promise a s p f eh pl
+  | WRaw t f s p => write_raw t f s p
+  end.
+
+
+(* What ReadFrame must return for the bytes of a successful Write* call: written independently of
+   the parsers (from the RFC 7540 §6 field layout), used as the specification of the round trip.
+   The header carries the payload length the writer produced; the reserved bit of every 31-bit
+   field is dropped. *)
+Definition r31 (v : N) : N := v mod 2147483648.
+Definition written_len (c : wcall) : N :=
+  match run_wcall c with WOk b => lenN b - 9 | WErr _ => 0 end.
+Definition expected_frame (c : wcall) : frame :=
+  let L := written_len c in
+  match c with
+  | WData _ s es d p =>
+      FData (mkh L FrameData (N.lor (bflag es FlagDataEndStream)
+                                    (bflag (match p with Some _ => true | None => false end) FlagDataPadded)) (r31 s)) d
+  | WHeaders _ s f es eh pl pr =>
+      FHeaders (mkh L FrameHeaders
+                    (N.lor (N.lor (N.lor (bflag (negb (pl =? 0)) FlagHeadersPadded) (bflag es FlagHeadersEndStream))
+                                  (bflag eh FlagHeadersEndHeaders))
+                           (bflag (negb (prio_is_zero pr)) FlagHeadersPriority)) (r31 s))
+               (if prio_is_zero pr then prio_zero else pr) f
+  | WPriority _ s pr => FPriority (mkh L FramePriority 0 (r31 s)) pr
+  | WRst _ s c => FRst (mkh L FrameRSTStream 0 (r31 s)) c
+  | WSettings l => FSettings (mkh L FrameSettings 0 0) l
+  | WSettingsAck => FSettings (mkh L FrameSettings FlagSettingsAck 0) []
+  | WPing a d => FPing (mkh L FramePing (bflag a FlagPingAck) 0) d
+  | WGoAway l c d => FGoAway (mkh L FrameGoAway 0 0) (r31 l) c d
+  | WWindowUpdate _ s i => FWindowUpdate (mkh L FrameWindowUpdate 0 (r31 s)) i
+  | WContinuation _ s eh f => FContinuation (mkh L FrameContinuation (bflag eh FlagContinuationEndHeaders) (r31 s)) f
+  | WPushPromise _ s p f eh pl =>
+      FPushPromise (mkh L FramePushPromise
+                        (N.lor (bflag (negb (pl =? 0)) FlagPushPromisePadded) (bflag eh FlagPushPromiseEndHeaders)) (r31 s))
+                   (r31 p) f
+  | WRaw t fl s p => FUnknown (mkh L t fl (r31 s)) p
+  end.
